@@ -1,7 +1,80 @@
 import Cherab.Drv.Proto
-open Cherab.Drv
+import Cherab.Model.Equilibrium
+open Cherab.Drv Cherab.Equilibrium
 
-/-- C12 driver: not yet implemented (echo) -/
+/-! C12 driver: the model of `Cherab/Model/Equilibrium.lean` at `Float`.
+
+External functions are supplied by the harness as *point functions*: the raysect interpolators / polygon mask
+were evaluated by the harness at one point `(r0, z0)`; the closure handed to the model returns that value
+only when the model asks for exactly that point and NaN otherwise, so a model that queried a different point
+than the implementation shows up in the comparison.  1-D profiles are quadratics `c0 + x*(c1 + x*c2)`
+evaluated here (the Python callable given to cherab performs the same operations in the same order). -/
+
+def nan : Float := 0.0 / 0.0
+
+def ptFn (r0 z0 v : Float) : Float → Float → Float :=
+  fun r z => if r == r0 && z == z0 then v else nan
+
+def quad (c0 c1 c2 : Float) : Float → Float := fun x => c0 + x * (c1 + x * c2)
+
+def piF : Float := 3.14159265358979323846
+
+def fV (v : Option (V3 Float)) : String :=
+  match v with
+  | some w => fFs [w.x, w.y, w.z]
+  | none => "E E E"
+
+def noSlerp : V3 Float → V3 Float → Float → V3 Float := fun _ _ _ => ⟨nan, nan, nan⟩
+
+/-- tokens after the point: raw poly dr dz f0 f1 f2 rvac bvac out c0 c1 c2 ox oy oz t0 t1 t2 p0 p1 p2 n0 n1 n2 -/
+structure Args where
+  e : Eq Float
+  out : Float
+  prof : Float → Float
+  ov : V3 Float
+  tor : Float → Float
+  pol : Float → Float
+  nrm : Float → Float
+
+def mkArgs (r0 z0 : Float) (a : Array Float) : Args :=
+  { e := { interpN := ptFn r0 z0 a[0]!, poly := ptFn r0 z0 a[1]!, dpsidr := ptFn r0 z0 a[2]!,
+           dpsidz := ptFn r0 z0 a[3]!, fprof := quad a[4]! a[5]! a[6]!, rvac := a[7]!, bvac := a[8]! },
+    out := a[9]!, prof := quad a[10]! a[11]! a[12]!, ov := ⟨a[13]!, a[14]!, a[15]!⟩,
+    tor := quad a[16]! a[17]! a[18]!, pol := quad a[19]! a[20]! a[21]!, nrm := quad a[22]! a[23]! a[24]! }
+
+def step (ts : List String) : String :=
+  match ts with
+  | ["pi"] => fF piF
+  | ["psin", raw] => fF (psiN (fun _ _ => pF raw) 0 0)
+  | ["norm", psi, ax, lc] => fF (normGrid (pF psi) (pF ax) (pF lc))
+  | ["mask", poly, psin] => fF (insideLcfs (pF poly) (pF psin))
+  | ["blend", t, f1, f2] => fF (blend (pF t) (pF f1) (pF f2))
+  | ["bf", dr, dz, ins, psin, fv, rvac, bvac, r] =>
+      let b := bField (pF dr) (pF dz) (pF ins) (pF psin) (fun _ => pF fv) (pF rvac) (pF bvac) (pF r)
+      fFs [b.x, b.y, b.z]
+  | ["pol", bx, by', bz] => fV (poloidalVector Float.sqrt ⟨pF bx, pF by', pF bz⟩)
+  | ["nrm", bx, by', bz] => fV (surfaceNormal Float.sqrt ⟨pF bx, pF by', pF bz⟩)
+  | ["vel", fx, fy, fz, psi, t, p, n] =>
+      fV (fluxCoordToCartesian Float.sqrt ⟨pF fx, pF fy, pF fz⟩ (pF psi) (fun _ => pF t) (fun _ => pF p) (fun _ => pF n))
+  | ["rot", x, y, z, rho, vx, vy, vz] =>
+      fV (vectorAxisymmetric Float.sqrt Float.atan2 Float.cos Float.sin piF
+            (fun r zz => if r == pF rho && zz == pF z then some ⟨pF vx, pF vy, pF vz⟩ else some ⟨nan, nan, nan⟩)
+            (pF x) (pF y) (pF z))
+  | "eq" :: r :: z :: rest =>
+      let a := mkArgs (pF r) (pF z) (rest.map pF).toArray
+      if rest.length != 25 then "bad-arity" else
+      let r := pF r; let z := pF z
+      let b := a.e.bField r z
+      String.intercalate " " [fF (a.e.psiN r z), fF (a.e.inside r z), fFs [b.x, b.y, b.z],
+        fV (a.e.poloidal Float.sqrt r z), fV (a.e.normal Float.sqrt r z),
+        fF (a.e.map2d a.out a.prof r z), fV (a.e.mapVector2d Float.sqrt noSlerp a.ov a.tor a.pol a.nrm r z)]
+  | "eq3" :: x :: y :: z :: rho :: rest =>
+      let a := mkArgs (pF rho) (pF z) (rest.map pF).toArray
+      if rest.length != 25 then "bad-arity" else
+      String.intercalate " " [fF (a.e.map3d Float.sqrt a.out a.prof (pF x) (pF y) (pF z)),
+        fV (a.e.mapVector3d Float.sqrt Float.atan2 Float.cos Float.sin piF noSlerp a.ov a.tor a.pol a.nrm (pF x) (pF y) (pF z))]
+  | _ => "bad-op"
+
 def main : IO UInt32 := do
-  loop (stateless fun ts => " ".intercalate ts) (← IO.getStdin) (← IO.getStdout) ()
+  loop (stateless step) (← IO.getStdin) (← IO.getStdout) ()
   return 0
